@@ -77,6 +77,14 @@ Theorem C18_bundle_load_spec :
       = apply d cs).
 Proof. exact bundle_load_spec. Qed.
 
+(* every column layout the writer emits (ChangeOpsColumns::raw_columns: a sub-list of its fixed
+   14 columns with value raw beside value metadata and the pred columns together) passes the
+   reader's order, deflate-bit and layout checks *)
+Theorem C18_writer_layout_accepted : forall ss : list N,
+  writer_specs_ok ss = true ->
+  layout_ok ss = true /\ normal_sorted ss = true /\ existsb spec_deflate ss = false.
+Proof. exact writer_layout_accepted. Qed.
+
 (* what a [true] of the correspondence checker the harness evaluates means *)
 Theorem C18_checker_sound : forall (data : bytes) (deps : list bytes) (actor : bytes) (seq start : N)
     (time : Z) (msg : bytes) (others : list bytes) (extra : bytes),
@@ -129,8 +137,14 @@ Example C18_time_nonvacuous :
   /\ sleb_dec [255; 127] = Err /\ sleb_dec [128; 0] = Err /\ sleb_dec [192; 0] = Ok (64%Z, []).
 Proof. vm_compute. repeat split. Qed.
 
-Example C18_checker_nonvacuous : chk_chg_body real [] [240; 0; 20] 1 1 0%Z [] [] [] = true.
+Example C18_checker_nonvacuous : chk_chg_written real [] [240; 0; 20] 1 1 0%Z [] [] [] = true.
 Proof. vm_compute. reflexivity. Qed.
+
+Example C18_writer_layout_nonvacuous :
+  writer_specs_ok [1; 2; 17; 19; 21; 52; 66; 86; 87; 112] = true
+  /\ writer_specs_ok [86; 87; 112; 113; 115; 148; 165] = true
+  /\ writer_specs_ok [87] = false /\ writer_specs_ok [112; 113] = false /\ writer_specs_ok [2; 1] = false.
+Proof. vm_compute. repeat split. Qed.
 
 Section Example.
   Let H (_ : bytes) : bytes := [1; 2; 3; 4].
